@@ -6,7 +6,7 @@ import subprocess
 import vlib
 from vlib import WORK, DRV, ENV, NPROC
 
-PM_TARGET = f'{WORK}/pm-target'
+PM_TARGET = f'{WORK}/pm-target{vlib.TSUF}'
 SO = f'{PM_TARGET}/debug/libderive_ex.so'
 
 
